@@ -14,9 +14,16 @@
                                                 http/https, lower-case ASCII DNS / IPv4 / bracketed IPv6 hosts, ports 1…65535 with
                                                 default-port elision, ASCII paths; four named library hypotheses remain
                                                 (`GetterUrlOk.bracketedOk/idnaAscii/hostValid/restStable`)
+  * `normRestPy_idem`, `normRestPy_stored`, `restStable_of_setUrl`, `url_get_set_idempotent_ascii_rest` : the re-assembly of what follows
+                                                the netloc (cut at # ?, ;params, urlunparse) transcribed and proved idempotent —
+                                                `restStable` is no longer assumed
+  * `url_get_set_idempotent_derived`          : port range, leading `/`, is_valid_host, the IDNA round trip and path stability are all
+                                                derived from the setter's own success; assumed: `IdnaAsciiLaw` and, for IPv6 literals,
+                                                `_check_bracketed_host`
   * `url_get_set_idempotent_counterexample`   : F-C33b — with an IDN host the URL read back is rejected
 -/
 import MitmVerif.Model.C33
+import MitmVerif.Lemmas.C33Rest
 namespace MitmVerif.Props.C33
 open MitmVerif MitmVerif.C33
 
@@ -556,7 +563,7 @@ private theorem pySplit_eval (vb : Str → Bool) (U s body : Str)
     (h9 : (netloc.contains 91 != netloc.contains 93) = false)
     (h10 : (netloc.contains 91 && !vb (partition 93 (partition 91 netloc).2.2).1) = false) :
     pySplit vb U = some (s, netloc, rest) := by
-  unfold pySplit
+  unfold pySplit schemeSplit cleanUrl
   simp only [h1, h2, h3]
   rw [if_pos h4]
   simp only [h5, h6, List.take, List.drop, h7, h8, h9, h10]
@@ -726,6 +733,295 @@ theorem url_get_set_idempotent_ascii (Q : PyLib) (r : Req) (u : Str) (r' : Req) 
     (ok : GetterUrlOk Q r') : setUrl (pyLib Q) r' (url r') = some r' :=
   url_get_set_idempotent_partial (pyLib Q) r u r' h1 (url_parse_reads_getter_url Q r' ok)
 
+/-! ### the `restStable` hypothesis, derived: the re-assembly after the netloc is transcribed (`normRestPy`) and idempotent -/
+
+/-- the library with urlparse/urlunparse's treatment of what follows the netloc transcribed as well -/
+def withRest (Q : PyLib) : PyLib := { Q with normRest := normRestPy }
+
+/-- whatever `url.parse` accepts, the path it returns is the re-assembled rest (with a `/` in front if it lacks one) under the
+    scheme it returns -/
+private theorem urlParse_path_form (Q : PyLib) (u s h : Str) (p : Nat) (path : Str)
+    (hp : urlParse (pyLib Q) u = some (s, h, p, path)) :
+    ∃ rest, path = (if (Q.normRest s rest).head? = some 47 then Q.normRest s rest else 47 :: Q.normRest s rest) := by
+  unfold urlParse at hp
+  cases hs : (pyLib Q).split u with
+  | none => rw [hs] at hp; cases hp
+  | some t =>
+    obtain ⟨sc, nl, full⟩ := t
+    rw [hs] at hp
+    simp only at hp
+    -- the split result comes from pySplit
+    have hform : ∃ rest, full = (if (Q.normRest sc rest).head? = some 47 then Q.normRest sc rest else 47 :: Q.normRest sc rest) := by
+      have hs' : (pySplit Q.validBracketed u).map (fun t =>
+          (t.1, t.2.1, if (Q.normRest t.1 t.2.2).head? = some 47 then Q.normRest t.1 t.2.2 else 47 :: Q.normRest t.1 t.2.2)) =
+          some (sc, nl, full) := hs
+      cases hq : pySplit Q.validBracketed u with
+      | none => rw [hq] at hs'; cases hs'
+      | some t0 =>
+        rw [hq] at hs'
+        simp only [Option.map_some, Option.some.injEq, Prod.mk.injEq] at hs'
+        obtain ⟨e1, _, e3⟩ := hs'
+        exact ⟨t0.2.2, by rw [← e3, ← e1]⟩
+    -- peel the remaining failure branches of url.parse
+    split at hp
+    · cases hp
+    · split at hp
+      · cases hp
+      · split at hp
+        · cases hp
+        · split at hp
+          · cases hp
+          · split at hp
+            · cases hp
+            · simp only [Option.some.injEq, Prod.mk.injEq] at hp
+              obtain ⟨e1, _, _, e4⟩ := hp
+              rw [← e1, ← e4]; exact hform
+
+/-- **`restStable` is a theorem** for the transcribed re-assembly: the path of any request produced by the URL setter is left alone
+    by `urlunparse ∘ urlparse` -/
+theorem restStable_of_setUrl (Q : PyLib) (r : Req) (u : Str) (r' : Req) (h : setUrl (pyLib (withRest Q)) r u = some r') :
+    (withRest Q).normRest r'.scheme r'.path = r'.path := by
+  unfold setUrl at h
+  cases hp : urlParse (pyLib (withRest Q)) u with
+  | none => rw [hp] at h; cases h
+  | some q =>
+    obtain ⟨s, hh, p, path⟩ := q
+    rw [hp] at h
+    simp only [Option.some.injEq] at h
+    obtain ⟨rest, hrest⟩ := urlParse_path_form (withRest Q) u s hh p path hp
+    have hs : r'.scheme = s := by rw [← h]; rfl
+    have hpth : r'.path = path := by rw [← h]
+    rw [hs, hpth, hrest]
+    exact normRestPy_stored s rest
+
+/-- the hypotheses of `url_get_set_idempotent_ascii` WITHOUT `restStable` -/
+structure GetterUrlOk2 (Q : PyLib) (r : Req) : Prop where
+  notConnect : r.method.map upperC ≠ S "CONNECT"
+  scheme : r.scheme = S "http" ∨ r.scheme = S "https"
+  host : HostOk r.host
+  port : 1 ≤ r.port ∧ r.port ≤ 65535
+  pathSlash : r.path.head? = some 47
+  pathAscii : ∀ c ∈ r.path, c < 128 ∧ c ≠ 9 ∧ c ≠ 10 ∧ c ≠ 13
+  bracketedOk : 58 ∈ r.host → Q.validBracketed r.host = true
+  idnaAscii : Q.idnaRt r.host = some r.host
+  hostValid : Q.validHost r.host = true
+
+/-- **C33 (url), with the rest re-assembly transcribed.** Re-assigning `request.url` changes nothing; of the library hypotheses only
+    `_check_bracketed_host`, the IDNA round trip of an ASCII host and `is_valid_host` remain. -/
+theorem url_get_set_idempotent_ascii_rest (Q : PyLib) (r : Req) (u : Str) (r' : Req)
+    (h1 : setUrl (pyLib (withRest Q)) r u = some r') (ok : GetterUrlOk2 Q r') :
+    setUrl (pyLib (withRest Q)) r' (url r') = some r' :=
+  url_get_set_idempotent_ascii (withRest Q) r u r' h1
+    { notConnect := ok.notConnect, scheme := ok.scheme, host := ok.host, port := ok.port, pathSlash := ok.pathSlash,
+      pathAscii := ok.pathAscii, bracketedOk := ok.bracketedOk, idnaAscii := ok.idnaAscii, hostValid := ok.hostValid,
+      restStable := restStable_of_setUrl Q r u r' h1 }
+
+example : normRestPy (S "http") (S "/a;b/c;?q=1?x#") = S "/a;b/c?q=1?x" ∧ normRestPy (S "http") (S "?x#f") = S "?x#f" ∧
+    normRestPy (S "http") (S "/p;k=v;w?") = S "/p;k=v;w" ∧ normRestPy (S "gopher") (S "/p;k") = S "/p;k" := by decide +kernel
+
+/-! ### more of `GetterUrlOk` derived from the setter's own success: port range, leading `/`, `is_valid_host`, the IDNA round trip -/
+
+private theorem mem_dropWhile_sub (p : Nat → Bool) (l : Str) : ∀ x ∈ l.dropWhile p, x ∈ l := by
+  induction l with
+  | nil => simp
+  | cons y l ih =>
+    intro x hx
+    by_cases h : p y = true
+    · rw [List.dropWhile_cons_of_pos h] at hx; exact List.mem_cons_of_mem _ (ih x hx)
+    · rw [List.dropWhile_cons_of_neg h] at hx; exact hx
+
+private theorem mem_takeWhile_sub (p : Nat → Bool) (l : Str) : ∀ x ∈ l.takeWhile p, x ∈ l := by
+  induction l with
+  | nil => simp
+  | cons y l ih =>
+    intro x hx
+    by_cases h : p y = true
+    · rw [List.takeWhile_cons_of_pos h] at hx
+      rcases List.mem_cons.mp hx with e | hx
+      · exact e ▸ List.mem_cons_self
+      · exact List.mem_cons_of_mem _ (ih x hx)
+    · rw [List.takeWhile_cons_of_neg h] at hx; cases hx
+
+private theorem schemeSplit_snd_sub (U : Str) : ∀ x ∈ (schemeSplit U).2, x ∈ U := by
+  unfold schemeSplit
+  split
+  · intro x hx; exact List.mem_of_mem_drop hx
+  · intro x hx; exact hx
+
+/-- the netloc that urlsplit's reading returns consists of characters of the URL -/
+private theorem pySplit_netloc_sub (vb : Str → Bool) (u sc nl rest : Str) (h : pySplit vb u = some (sc, nl, rest)) : ∀ x ∈ nl, x ∈ u := by
+  unfold pySplit at h
+  simp only at h
+  split at h
+  · split at h
+    · cases h
+    · split at h
+      · cases h
+      · simp only [Option.some.injEq, Prod.mk.injEq] at h
+        obtain ⟨_, e, _⟩ := h
+        intro x hx
+        rw [← e] at hx
+        have h1 := mem_takeWhile_sub _ _ x hx
+        have h2 := List.mem_of_mem_drop h1
+        have h3 := schemeSplit_snd_sub _ x h2
+        unfold cleanUrl at h3
+        exact mem_dropWhile_sub _ _ x (List.mem_filter.mp h3).1
+  · simp only [Option.some.injEq, Prod.mk.injEq] at h
+    obtain ⟨_, e, _⟩ := h
+    intro x hx; rw [← e] at hx; cases hx
+
+private theorem lowerC_lt (c : Nat) (h : c < 128) : lowerC c < 128 := by unfold lowerC; split <;> omega
+
+/-- the hostname urllib reads consists of (lower-cased) characters of the netloc, or `%` -/
+private theorem hostname_ascii (nl hn : Str) (h : hostname nl = some hn) (hnl : ∀ c ∈ nl, c < 128) : ∀ c ∈ hn, c < 128 := by
+  -- every part of hostinfo is made of characters of the netloc
+  have hi_sub : ∀ x ∈ (hostinfo nl).1, x ∈ nl := by
+    unfold hostinfo
+    have al : ∀ x ∈ afterLast 64 nl, x ∈ nl := by
+      intro x hx
+      unfold afterLast at hx
+      exact List.mem_reverse.mp (mem_takeWhile_sub _ _ x (List.mem_reverse.mp hx))
+    simp only
+    split
+    · rename_i hb
+      intro x hx
+      have : x ∈ (partition 91 (afterLast 64 nl)).2.2 := by rw [hb]; exact partition_fst_sub 93 _ x hx
+      exact al x (partition_snd_sub 91 _ x this)
+    · intro x hx
+      exact al x (partition_fst_sub 58 _ x hx)
+  unfold hostname at h
+  simp only at h
+  split at h
+  · cases h
+  · simp only [Option.some.injEq] at h
+    intro c hc
+    rw [← h] at hc
+    simp only [List.mem_append] at hc
+    rcases hc with (hc | hc) | hc
+    · unfold lower at hc
+      obtain ⟨y, hy, e⟩ := List.mem_map.mp hc
+      rw [← e]
+      exact lowerC_lt y (hnl y (hi_sub y (partition_fst_sub 37 _ y hy)))
+    · split at hc
+      · simp at hc; omega
+      · cases hc
+    · exact hnl c (hi_sub c (partition_snd_sub 37 _ c hc))
+
+/-- everything `url.parse` checked on the way to a result -/
+private theorem urlParse_facts (Q : PyLib) (u s h : Str) (p : Nat) (path : Str)
+    (hp : urlParse (pyLib Q) u = some (s, h, p, path)) :
+    ∃ hn, Q.idnaRt hn = some h ∧ Q.validHost hn = true ∧ (∀ c ∈ hn, c < 128) ∧ 1 ≤ p ∧ p ≤ 65535 := by
+  unfold urlParse at hp
+  cases hs : (pyLib Q).split u with
+  | none => rw [hs] at hp; cases hp
+  | some t =>
+    obtain ⟨sc, nl, full⟩ := t
+    rw [hs] at hp
+    simp only at hp
+    have hnl_sub : ∀ x ∈ nl, x ∈ u := by
+      have hs' : (pySplit Q.validBracketed u).map (fun t =>
+          (t.1, t.2.1, if (Q.normRest t.1 t.2.2).head? = some 47 then Q.normRest t.1 t.2.2 else 47 :: Q.normRest t.1 t.2.2)) =
+          some (sc, nl, full) := hs
+      cases hq : pySplit Q.validBracketed u with
+      | none => rw [hq] at hs'; cases hs'
+      | some t0 =>
+        obtain ⟨a, b, c⟩ := t0
+        rw [hq] at hs'
+        simp only [Option.map_some, Option.some.injEq, Prod.mk.injEq] at hs'
+        rw [← hs'.2.1]
+        exact pySplit_netloc_sub _ u a b c hq
+    cases hh : hostname nl with
+    | none => rw [hh] at hp; cases hp
+    | some hn =>
+      rw [hh] at hp
+      simp only at hp
+      cases hi : (pyLib Q).idnaRt hn with
+      | none => rw [hi] at hp; cases hp
+      | some hd =>
+        rw [hi] at hp
+        simp only at hp
+        by_cases hany : (u.any fun c => decide (c ≥ 128)) = true
+        · rw [if_pos hany] at hp; cases hp
+        · rw [if_neg hany] at hp
+          have hascii : ∀ c ∈ u, c < 128 := by
+            intro c hc
+            have h' : ∀ x ∈ u, x < 128 := by simpa using hany
+            exact h' c hc
+          cases hpo : portOf nl with
+          | none => rw [hpo] at hp; cases hp
+          | some po =>
+            rw [hpo] at hp
+            simp only at hp
+            by_cases hv : (pyLib Q).validHost hn = true
+            · simp only [hv, Bool.not_true, Bool.false_eq_true, if_false, Option.some.injEq, Prod.mk.injEq] at hp
+              obtain ⟨_, e2, e3, _⟩ := hp
+              refine ⟨hn, by rw [← e2]; exact hi, hv, hostname_ascii nl hn hh (fun c hc => hascii c (hnl_sub c hc)), ?_⟩
+              -- the port: what portOf returned (≤ 65535, and 0 is replaced) or the scheme's default
+              have hpo_le : ∀ n, po = some n → n ≤ 65535 := by
+                intro n hn'
+                unfold portOf at hpo
+                simp only at hpo
+                split at hpo
+                · rw [hn'] at hpo; cases hpo
+                · split at hpo
+                  · split at hpo
+                    · rw [hn'] at hpo; simp only [Option.some.injEq] at hpo; omega
+                    · cases hpo
+                  · cases hpo
+              rw [← e3]
+              cases po with
+              | none => simp only; split <;> omega
+              | some n =>
+                have := hpo_le n rfl
+                simp only
+                split
+                · split <;> omega
+                · omega
+            · have : (pyLib Q).validHost hn = false := by simpa using hv
+              simp [this] at hp
+
+/-- ASCII host names pass through the IDNA codec unchanged (ToASCII and ToUnicode are the identity on ASCII labels without the ACE
+    prefix; a label WITH it decodes to non-ASCII text) -/
+def IdnaAsciiLaw (Q : PyLib) : Prop :=
+  ∀ a b, (∀ c ∈ a, c < 128) → Q.idnaRt a = some b → (∀ c ∈ b, c < 128) → b = a
+
+/-- what remains to be assumed about a request produced by the URL setter -/
+structure GetterUrlOk3 (Q : PyLib) (r : Req) : Prop where
+  notConnect : r.method.map upperC ≠ S "CONNECT"
+  scheme : r.scheme = S "http" ∨ r.scheme = S "https"
+  host : HostOk r.host
+  pathAscii : ∀ c ∈ r.path, c < 128 ∧ c ≠ 9 ∧ c ≠ 10 ∧ c ≠ 13
+  bracketedOk : 58 ∈ r.host → Q.validBracketed r.host = true
+
+/-- **C33 (url), strongest form.** For the library with urlsplit's scheme/netloc reading, urllib's hostname/port reading and the
+    re-assembly of the rest all transcribed: if the URL setter accepted `u` and produced `r'` (http/https, lower-case ASCII host,
+    ASCII path), assigning `r'.url` again gives exactly `r'`.  The port range, the leading `/` of the path, `is_valid_host`, the IDNA
+    round trip of the host and the stability of the path are all DERIVED from the setter's success; assumed are the IDNA law for
+    ASCII names and, for IPv6 literals, `_check_bracketed_host`. -/
+theorem url_get_set_idempotent_derived (Q : PyLib) (law : IdnaAsciiLaw Q) (r : Req) (u : Str) (r' : Req)
+    (h1 : setUrl (pyLib (withRest Q)) r u = some r') (ok : GetterUrlOk3 Q r') :
+    setUrl (pyLib (withRest Q)) r' (url r') = some r' := by
+  have h1' := h1
+  unfold setUrl at h1'
+  cases hp : urlParse (pyLib (withRest Q)) u with
+  | none => rw [hp] at h1'; cases h1'
+  | some q =>
+    obtain ⟨s, hh, p, path⟩ := q
+    rw [hp] at h1'
+    simp only [Option.some.injEq] at h1'
+    have eh : r'.host = hh := by rw [← h1']; rfl
+    have ep : r'.port = p := by rw [← h1']; rfl
+    have epath : r'.path = path := by rw [← h1']
+    obtain ⟨hn, hidn, hval, hnascii, hp1, hp2⟩ := urlParse_facts (withRest Q) u s hh p path hp
+    obtain ⟨rest, hrest⟩ := urlParse_path_form (withRest Q) u s hh p path hp
+    have hhn : hh = hn := law hn hh hnascii hidn (by rw [← eh]; exact ok.host.ascii)
+    apply url_get_set_idempotent_ascii_rest Q r u r' h1
+    refine { notConnect := ok.notConnect, scheme := ok.scheme, host := ok.host, port := by rw [ep]; exact ⟨hp1, hp2⟩,
+             pathSlash := ?_, pathAscii := ok.pathAscii, bracketedOk := ok.bracketedOk, idnaAscii := ?_, hostValid := ?_ }
+    · rw [epath, hrest]; split <;> simp_all
+    · rw [eh, hhn]; rw [hhn] at hidn; exact hidn
+    · rw [eh, hhn]; exact hval
+
 /-! ### F-C33b: IDN hosts -/
 private def uA : Str := S "http://xn--bcher-kva.example/p"
 private def hA : Str := S "xn--bcher-kva.example"
@@ -792,6 +1088,16 @@ example : urlParse (pyLib okLib) (url okReq) = some (okReq.scheme, okReq.host, o
       host := ⟨⟨by decide, by decide, by decide, by decide⟩, by decide, by decide, by decide⟩,
       port := by decide, pathSlash := by decide, pathAscii := by decide,
       bracketedOk := fun _ => rfl, idnaAscii := rfl, hostValid := rfl, restStable := rfl }
+
+/-- the hypotheses of `url_get_set_idempotent_derived` are satisfiable: assign `http://[::1]:8080/a;x?b=c#` to a request -/
+example : setUrl (pyLib (withRest okLib)) ((setUrl (pyLib (withRest okLib)) req0 (S "http://[::1]:8080/a;x?b=c#")).getD req0)
+      (url ((setUrl (pyLib (withRest okLib)) req0 (S "http://[::1]:8080/a;x?b=c#")).getD req0)) =
+    some ((setUrl (pyLib (withRest okLib)) req0 (S "http://[::1]:8080/a;x?b=c#")).getD req0) :=
+  url_get_set_idempotent_derived okLib (fun a b _ h _ => by cases h; rfl) req0 (S "http://[::1]:8080/a;x?b=c#") _ (by decide +kernel)
+    { notConnect := by decide +kernel, scheme := by decide +kernel,
+      host := ⟨⟨by decide +kernel, by decide +kernel, by decide +kernel, by decide +kernel⟩, by decide +kernel, by decide +kernel,
+               by decide +kernel⟩,
+      pathAscii := by decide +kernel, bracketedOk := fun _ => rfl }
 
 example : pySplit (fun _ => true) (S "HTTP://User@[::1]:8080/a?b#c") = some (S "http", S "User@[::1]:8080", S "/a?b#c") ∧
     pySplit (fun _ => true) (S "http://[::1/") = none ∧
